@@ -60,6 +60,11 @@ def env_for(inp, cfg):
     else:
         e = sem.Env(mode="S", lsig_args=args, fields=inp.get("fields"), gfields=inp.get("gfields"))
     e.locals = inp.get("locals")
+    if inp.get("group") is not None:
+        e.group = list(inp["group"])
+        e.group_index = inp.get("group_index", 0)
+        e.group_size = len(e.group)
+    e.arrays = dict(inp.get("arrays") or {})
     return e
 
 
@@ -69,6 +74,8 @@ def ctx_for(inp, cfg):
         txn = interp.default_txn(ApplicationArgs=list(args), OnCompletion=inp.get("oc", 0),
                                  ApplicationID=inp.get("app_id", 7))
         txn.update(inp.get("fields") or {})
+        for k, v in (inp.get("arrays") or {}).items():
+            txn[k] = list(v)
         group = inp.get("group")
         gi = inp.get("group_index", 0)
         if group is None:
